@@ -19,7 +19,7 @@ for p in $props; do
     fi
     mkdir -p "$scratch/verif"; ln -s /verif/libspec "$scratch/verif/libspec"; ln -s /verif/replaytmpl "$scratch/verif/replaytmpl"; ln -s /verif/bounded "$scratch/verif/bounded"; cp /verif/known_findings.json "$scratch/verif/" 2>/dev/null
     dirs=$(grep '^+++ ' "/verif/$patch" | sed 's|^+++ [ab]/||; s|\t.*||' | xargs -n1 dirname | sort -u | paste -sd,)
-    out=$(GOVC_ONLY_DIRS="$dirs" GOVC_REPO="$scratch/repo" GOVC_VERIF="$scratch/verif" ./bin/govc check "$p" --tier quick 2>&1)
+    out=$(GOVC_QUERY_TIMEOUT=${GOVC_SELFTEST_TIMEOUT:-8} GOVC_ONLY_DIRS="$dirs" GOVC_REPO="$scratch/repo" GOVC_VERIF="$scratch/verif" ./bin/govc check "$p" --tier quick 2>&1)
     ran=$((ran+1))
     if echo "$out" | grep -q "^VIOLATION property=$p" && echo "$out" | grep -E "^  (obligation|bounded) " | grep -q -F -- "$want"; then
       echo "OK    $p/$name -> $(echo "$out" | grep -E "^  (obligation|bounded) " | grep -F -- "$want" | head -1 | cut -c1-120)"
